@@ -139,6 +139,32 @@ func c12(ctx *Ctx) (*Outcome, error) {
 					sg.Prop{Name: "detContact", S: &sg.Schema{Ref: "#/$defs/DetContact", Target: contact}}, sg.Prop{Name: "detEither", S: &sg.Schema{Ref: "#/$defs/DetEither", Target: either}})
 			}
 		}
+		{
+			// required lists: many declared names, and several names that are NOT declared under properties, next to every
+			// form of additionalProperties (whatever is made of the undeclared ones - checks or nothing - the order of what
+			// is emitted is a function of the document)
+			for k, ap := range []string{"typed", "true", "object", "absent"} {
+				env := &sg.Schema{Types: []string{"object"}, Props: []sg.Prop{{Name: "id", S: &sg.Schema{Types: []string{"string"}}}, {Name: "seq", S: &sg.Schema{Types: []string{"integer"}}},
+					{Name: "kind", S: &sg.Schema{Types: []string{"string"}}}, {Name: "at", S: &sg.Schema{Types: []string{"string"}}}, {Name: "by", S: &sg.Schema{Types: []string{"string"}}}, {Name: "via", S: &sg.Schema{Types: []string{"string"}}}},
+					Required: []string{"via", "x-trace-id", "id", "x-span-id", "kind", "tenant", "at", "zz-region", "by", "m", "seq"}}
+				switch ap {
+				case "typed":
+					env.AddProps = &sg.Schema{Types: []string{"string"}}
+				case "true":
+					env.AddPropsBool = sg.Bp(true)
+				case "object":
+					env.AddProps = &sg.Schema{Types: []string{"object"}, Props: []sg.Prop{{Name: "q", S: &sg.Schema{Types: []string{"integer"}}}}}
+				}
+				if (i+k)%2 == 0 {
+					big.Defs = append(big.Defs, sg.Prop{Name: fmt.Sprintf("DetEnvelope%d", k), S: env})
+					if len(big.Types) == 1 && big.Types[0] == "object" {
+						big.Props = append(big.Props, sg.Prop{Name: fmt.Sprintf("detEnvelope%d", k), S: &sg.Schema{Ref: fmt.Sprintf("#/$defs/DetEnvelope%d", k), Target: env}})
+					}
+				} else if len(big.Types) == 1 && big.Types[0] == "object" {
+					big.Props = append(big.Props, sg.Prop{Name: fmt.Sprintf("detEnvelope%d", k), S: env})
+				}
+			}
+		}
 		if i%4 == 2 {
 			// keywords the generator does not (fully) support, each with several entries: whatever it makes of them,
 			// it makes the same of them in every process
